@@ -69,6 +69,12 @@ def B(k):
 
 
 CONS = (2, 0, 0)
+
+
+def SCAN(k):
+    return (5, k, 0)
+
+
 CLOSE = (3, 0, 0)
 
 
@@ -95,6 +101,9 @@ def base_scenarios():
     out.append(('wait_deliver_close', [S1], [dl(S1, 1), CLOSE, CONS], [W, D(0), W, D(1)], 'c09 c11'))
     out.append(('forever_deliver_close', [S1, S2], [dl(S2, 1), CLOSE, CONS], [F, N, N, N], 'c09 c11'))
     out.append(('two_closers', [S1], [CLOSE, CLOSE, CONS], [F, N], 'c11'))
+    # batches of one instance walked by several threads at once (a Pending is an owned, sendable value)
+    out.append(('scan_vs_scan', [S1], [dl(S1, 1), SCAN(0), SCAN(1), CONS], [P, D(2)], 'c09 c10'))
+    out.append(('scan_vs_wait', [S1, S2], [dl(S1, 1), dl(S2, 2), SCAN(0), CONS], [W, D(1), P, D(2)], 'c09 c10'))
     return out
 
 
@@ -128,6 +137,15 @@ def gen(seed, tier, want=None):
             rest = [x for p in others if p != o for x in [p] * 40]
             for i in split_points(acts[o][0], script):
                 scen.append(Scenario(name, setup, acts, script, [o] * i + [cons] * LONG + [o] * 40 + rest + [cons] * LONG))
+        # two scanning threads (scanner / scanner, scanner / consumer) stopped at every pair of slots around the watched ones, deliveries first
+        scanners = [i for i, a in enumerate(acts) if a[0] == 5]
+        dels = [x for i, a in enumerate(acts) if a[0] == 1 for x in [i] * 40]
+        for x in scanners:
+            for y in [z for z in scanners if z != x] + [cons]:
+                for i in range(8, 16):
+                    for j in range(8, 20):
+                        tail = [z for o in others for z in [o] * 160]
+                        scen.append(Scenario(name, setup, acts, script, dels + [x] * i + [y] * j + [x] * 6 + [y] * 6 + tail + [cons] * LONG))
         # two preemptions of the consumer at interesting places
         k = per if tier == 'quick' else 300
         pts = split_points(2, script)
@@ -253,7 +271,7 @@ def compare(s, r, m):
         if a != b:
             return {'step': i, 'impl': pretty(a) if a else None, 'model': pretty(b) if b else None}
     for act, k in enumerate(kinds):
-        if k != 2:
+        if k not in (2, 5):
             continue
         pi = [l for l in r['trace'] if l[0] == act and (l[1] in STEP_OPS or l[1] in NOTE_OPS)]
         pm = [l for l in m['trace'] if l[0] == act and (l[1] in STEP_OPS or l[1] in NOTE_OPS)]
@@ -592,8 +610,11 @@ SWEEP_CONFIGS = [('o', 'p', '-'), ('o', 'p', 's'), ('o', 'p', 't'), ('o', 'p', '
                  ('r', 'p', '-'), ('r', 'p', 's'), ('r', 'p', 'ss'), ('r', 'p', 'st'), ('r', 'p', 'sssss'), ('r', 'w', 's'), ('r', 'w', 'ss'),
                  ('r', 'w', 't'), ('r', 'w', 'ssssss'), ('r', 'f', 's'), ('r', 'f', 't'), ('r', 'f', 'sst'), ('r', 'f', 'ssssst'),
                  # add_signal(SIGUSR2) single-stepped, SIGUSR2 delivered at the boundary
-                 ('o', 'a', '-'), ('r', 'a', '-')]
-SWEEP_NAMES = {'o': 'SignalOnly', 'r': 'WithRawSiginfo', 'p': 'pending()', 'w': 'wait()', 'f': 'forever().next()', 'a': 'add_signal(SIGUSR2)', 'd': 'drop(instance)'}
+                 ('o', 'a', '-'), ('r', 'a', '-'),
+                 # close() of ANOTHER instance single-stepped: the library busy with one instance while a delivery for this one arrives
+                 ('o', 'c', '-'), ('r', 'c', '-'), ('o', 'c', 't'), ('r', 'c', 'ss')]
+SWEEP_NAMES = {'o': 'SignalOnly', 'r': 'WithRawSiginfo', 'p': 'pending()', 'w': 'wait()', 'f': 'forever().next()', 'a': 'add_signal(SIGUSR2)', 'd': 'drop(instance)',
+               'c': 'close() of another instance'}
 C09_KINDS = ('LOST', 'BLOCKED', 'CRASH')
 C10_KINDS = ('EXTRA', 'UNWATCHED', 'FIELD', 'ORDER', 'CRASH')
 
@@ -631,7 +652,7 @@ def sweep_configs(tier):
                 if pre == '-' and o != 'p':
                     continue
                 cfgs.append((e, o, pre))
-    return cfgs + [('o', 'a', '-'), ('r', 'a', '-')]
+    return cfgs + [('o', 'a', '-'), ('r', 'a', '-')] + [(e, 'c', pre) for e in 'or' for pre in ('-', 's', 't', 'st', 'ss')]
 
 
 DROP_CONFIGS = [('o', 'd', '-'), ('r', 'd', '-')]
